@@ -5,6 +5,13 @@ HERE = os.path.dirname(os.path.dirname(os.path.abspath(__file__)))
 ALL = [f"C{i:02d}" for i in range(1, 19)]
 # property -> (technique, level text, level note, design_ref)
 CHECKS = {
+ "C14": ("runtime differential monitor with the eager execution as oracle: every method of every structure under eqx.filter_jit (bound "
+         "method and model-as-argument), jax.vmap vs Python loop, repeated calls, a second model through the same compiled function "
+         "(stale constants), pytree flatten/unflatten and equinox leaf serialisation into a model built from another key",
+         "Exploration: ~260 bijection structures x 4 methods + 13 distributions x 3 methods, six clauses each (6.5e3 clause evaluations "
+         "per quick run); repeat / flatten / serialisation clauses demand bit equality.",
+         "jit-vs-eager tolerance scales with a finite-difference sensitivity estimate; paths through the bisection search get an extra 1e-5 x sensitivity.",
+         "DESIGN.md 4/C14"),
  "C13": ("runtime rejection monitor: every method of every concrete class / generated composition / flow is called with every wrong shape "
          "of a lattice built around the declared shape (x and condition, missing condition) and must raise; well-formed calls must return "
          "the declared shapes; structural contract that all four methods of every concrete class carry the checking wrapper; constructor negatives",
